@@ -16,14 +16,15 @@ import (
 type Conn struct {
 	Local net.Addr
 
-	mu     sync.Mutex
-	cond   *sync.Cond
-	reads  int
-	in     chan pkt
-	closed chan struct{}
-	once   sync.Once
-	seq    int
-	out    []Out
+	mu      sync.Mutex
+	cond    *sync.Cond
+	reads   int
+	prevAck chan struct{}
+	in      chan pkt
+	closed  chan struct{}
+	once    sync.Once
+	seq     int
+	out     []Out
 	// OnWrite, when set, is called before a write is recorded; it may block (a gate) and may
 	// return an error to make the write fail. It is called without c.mu held.
 	OnWrite func(b []byte, to net.Addr) error
@@ -32,6 +33,7 @@ type Conn struct {
 type pkt struct {
 	b    []byte
 	from net.Addr
+	ack  chan struct{}
 }
 
 type Out struct {
@@ -54,10 +56,18 @@ func NewConn(local string) *Conn {
 func (c *Conn) ReadFrom(b []byte) (int, net.Addr, error) {
 	c.mu.Lock()
 	c.reads++
+	if c.prevAck != nil {
+		// the read loop is back: the previously delivered datagram has been completely processed
+		close(c.prevAck)
+		c.prevAck = nil
+	}
 	c.cond.Broadcast()
 	c.mu.Unlock()
 	select {
 	case p := <-c.in:
+		c.mu.Lock()
+		c.prevAck = p.ack
+		c.mu.Unlock()
 		n := copy(b, p.b)
 		return n, p.from, nil
 	case <-c.closed:
@@ -68,33 +78,22 @@ func (c *Conn) ReadFrom(b []byte) (int, net.Addr, error) {
 // Inject delivers one datagram and waits until the server's read loop asks for the next one.
 // Returns false if the loop did not come back within the timeout (wedged or dead).
 func (c *Conn) Inject(b []byte, from net.Addr, timeout time.Duration) bool {
-	c.mu.Lock()
-	r := c.reads
-	c.mu.Unlock()
 	t := time.NewTimer(timeout)
 	defer t.Stop()
+	p := pkt{b, from, make(chan struct{})}
 	select {
-	case c.in <- pkt{b, from}:
+	case c.in <- p:
 	case <-c.closed:
 		return false
 	case <-t.C:
 		return false
 	}
-	done := make(chan struct{})
-	go func() {
-		c.mu.Lock()
-		for c.reads <= r {
-			c.cond.Wait()
-		}
-		c.mu.Unlock()
-		close(done)
-	}()
 	select {
-	case <-done:
+	case <-p.ack:
 		return true
+	case <-c.closed:
+		return false
 	case <-t.C:
-		// let the waiter goroutine finish eventually
-		go func() { c.mu.Lock(); c.reads += 0; c.mu.Unlock() }()
 		return false
 	}
 }
